@@ -73,7 +73,7 @@ def strategy_(draw, tier):
         ts=ts, src=src, retime=retime or "none",
         spec=draw(D.prior_spec()),
         theta=draw(D.rate_spec(-2, 2)),
-        eps=draw(st.sampled_from([None, None, 1e-10, 1e-6, 1e-2, 1.0])),
+        eps=draw(st.sampled_from([None, None, 0.0, 1e-10, 1e-6, 1e-2, 1.0])),
         space=draw(st.sampled_from([D.LOG, D.LIN])),
     )
 
